@@ -28,7 +28,7 @@ def run(pid, tier, seed):
         recs.append((nt, cfg, tp))
 
     def model(shared):
-        cfg = os.path.join(vlib.cfg_dir(), "IprThreads-%s-%s.cfg" % (pid, shared))
+        cfg = os.path.join(vlib.cfg_dir(), "IprThreads-%s-%s-%d.cfg" % (pid, shared, os.getpid()))
         vlib.write_cfg(cfg, spec="ThSpec", constants={"Procs": tla_set([1, 2]) if q else tla_set([1, 2, 3]), "Keys": tla_set([1, 2]),
                                                      "MaxSteps": 3 if q else 3, "Shared": shared},
                        invariants=["AsAlone", "Disjoint"])
